@@ -560,6 +560,16 @@ def strat_history(tier):
     })
 
 
+def strat_many(tier):
+    """the same histories on circuits with 10-12 registers of each type (register names with two digits)"""
+    L = 30 if tier == "quick" else 60
+    return st.fixed_dictionaries({
+        "ne": st.integers(10, 12), "np": st.integers(10, 12), "nc": st.integers(0, 2),
+        "init": st.just([]),
+        "steps": st.lists(st_edit(max_reg=12), min_size=1, max_size=L),
+    })
+
+
 SMALL_EDITS = (
     [["add", [g, t, 0]] for g in ("H", "I") for t in "ep"]
     + [["add", ["W", "e", 0, ["H", "P"]]], ["add", ["CNOT", "e", 0, "p", 0]], ["add", ["MCR", "e", 0, "p", 0, 0]], ["add", ["MZ", "p", 0, 0]]]
@@ -581,6 +591,8 @@ def enum_small(tier, seed):
 
 SUBS = [
     Sub("history", check_history, strategy=strat_history, n={"quick": 300, "thorough": 3000}),
+    Sub("many_registers", lambda c: check_history(c, "history"), strategy=strat_many, n={"quick": 60, "thorough": 1000},
+        doc="histories on circuits with 10-12 emitters and photons (two-digit register names)"),
     Sub("small", lambda c: check_history(c, "history"), enum=enum_small,
         doc="all histories of length <=2 (quick) / <=3 (thorough) over %d edits on 1 emitter + 1 photon + 1 classical register" % len(SMALL_EDITS)),
 ]
